@@ -72,6 +72,8 @@ pub proof fn lemma_keys_rev<K>(dom: Set<K>, s: Seq<&K>)
 }
 
 //@extract file=src/bin/copia/plan.rs fn=build_plan
+//@attr
+#[verifier::spinoff_prover]     // own solver instance: the loop proof is sensitive to what was verified before it in a shared one
 //@ret plan
 //@requires
     src@.len() < usize::MAX,
